@@ -118,6 +118,9 @@ func (e *exprState) render(v ssa.Value, fr *exprFrame, depth int) string {
 				return "local:" + a.Comment
 			}
 			if g, ok := x.X.(*ssa.Global); ok {
+				if iv := e.p.GlobalInit(g); iv != nil {
+					return e.render(iv, nil, depth+1)
+				}
 				return "global:" + g.Name()
 			}
 			if fv, ok := x.X.(*ssa.FreeVar); ok {
